@@ -14,6 +14,9 @@ CLAIMED = {
  "C16": ("explicit-state search of the complete reachable state space of the real LockManager (3 txns x 2 rows) + exhaustive schedule enumeration of 2-3 real goroutines under a controlled scheduler",
          "Every reachable state of the real lock manager for 3 transactions x 2 rows is visited with every request from it and compared with a holder-set model (not depth-bounded: the search stops when no new state appears); every interleaving of 2-3 goroutines x 2 requests is run on the real code and must equal a sequential order of the same calls.",
          "3 txns x 2 rows; transaction end through the real Commit/Abort with empty write sets; LockUpgrade only on rows held shared (caller contract); atomics are not scheduling points", "§4 C16"),
+ "C18": ("exhaustive enumeration of the input domains: all 2^32 integers and all non-NaN float32 bit patterns walked in numeric order (adjacent pairs), all strings over a 6-byte alphabet up to length 4/5 (all pairs), all row ids over byte lanes",
+         "The whole finite domain is enumerated on the real exported encode/decode/pack functions (thorough: every int32 and every float32; quick: windows around every byte-lane/sign/exponent boundary plus a stride): round trip, order of adjacent values (total order by transitivity), same-key adjacency (largest-rid entry of a key sorts before smallest-rid entry of the next key), ScanKey window containment, B-tree zero padding.",
+         "containers compare encoded keys bytewise; strings without NUL; the B-tree's 6-byte rid squeeze is mirrored here and exercised for real in C17", "§4 C18"),
 }
 
 ALL = ["C%02d" % i for i in range(1, 21)]
